@@ -624,10 +624,10 @@ pub fn run(ctx: &mut Ctx) {
     ];
     let ctx = &*ctx;
     ctx.cases("matches", ctx.n(20000, 400000), 0, matches_case);
-    ctx.cases("finish_when", ctx.n(400, 15000), 0, early_stop_case);
-    ctx.cases("target_state_count", ctx.n(200, 6000), 0, target_count_case);
-    ctx.cases("target_max_depth", ctx.n(300, 10000), 0, depth_case);
-    ctx.cases("seed_replay", ctx.n(200, 8000), 0, seed_replay_case);
+    ctx.cases("finish_when", ctx.n(1500, 25000), 0, early_stop_case);
+    ctx.cases("target_state_count", ctx.n(600, 10000), 0, target_count_case);
+    ctx.cases("target_max_depth", ctx.n(1200, 20000), 0, depth_case);
+    ctx.cases("seed_replay", ctx.n(800, 15000), 0, seed_replay_case);
     unexpired_timeout(ctx);
     timeout_expiry(ctx);
 }
